@@ -290,6 +290,8 @@ class Gen:
             tk.add("]")
             return N("ArrayRef", [a, i])
         if t == "member":
+            if self.avoid_known and e[1] == "." and e[2][0] == "const" and e[2][1] == "int":
+                e = ("member", "->", e[2], e[3])     # known finding C07: `1 .f` is regenerated as `1.f`
             x = E(e[2], 16)
             tk.add(e[1])
             i = tk.add(e[3])
@@ -695,6 +697,9 @@ class Gen:
         if k == 5:
             form = r.randint(0, 2)
             init = None if form == 0 else self.expr(1) if form == 1 else self.declaration(1, False, False)
+            if form == 2 and self.avoid_known:
+                # known finding C07: a for-init declaration with several declarators is regenerated wrongly
+                init = (init[0], init[1], init[2], init[3], init[4][:1])
             return ("for", init, self.expr(1) if r.random() < 0.7 else None, self.expr(1) if r.random() < 0.7 else None,
                     self.stmt(depth - 1, in_switch, True))
         if k == 6:
@@ -712,7 +717,10 @@ class Gen:
         if k == 8:
             return ("pragma", r.choice(["once", "omp parallel", "pack(1)", ""]))
         if k == 9:
-            return ("static_assert", self.expr(1, False), r.choice([None, '"msg"']))
+            e = self.expr(1, False)
+            if self.avoid_known and self.level(e) < 3:
+                e = self.primary()     # known finding C07: an assignment as the asserted expression loses its parentheses
+            return ("static_assert", e, r.choice([None, '"msg"']))
         return self.stmt(0, in_switch, in_loop)
 
     def block_item(self, depth, in_switch=False, in_loop=False):
